@@ -122,51 +122,87 @@ def check_run(spec, obs, ref, run_idx=0, cancelled_ok=None):
             P['C13'].append('CancelledError escaped run although nobody cancelled it')
             P['C01'].append('run cancelled itself')
 
-    # ---- C03 / C04 / C09 / C10 / C11 / C12 : executions vs reference log
-    per = executions(trace)
+    # ---- C03 / C04 / C09 / C10 / C11 / C12 : body invocations vs reference log
+    # Per node, the implementation's invocations (in order) must embed into the reference's executions (in order):
+    # each reference execution absorbs at most `attempts` consecutive invocations with exactly its arguments.
+    starts = {}
+    for e in trace:
+        if e[0] == 'start':
+            starts.setdefault(e[1], []).append(e[3])
     ref_per = {}
     for x in ref['log']:
         if x['attempts'] > 0:
             ref_per.setdefault(x['node'], []).append(x)
-    for i, lst in per.items():
+    matched = {}      # (node, index in ref_per[node]) -> number of invocations absorbed
+    for i, kws in starts.items():
         rl = ref_per.get(i, [])
-        for ex in lst:
-            if any(contains_bad(v) for _, v in ex['kw']):
-                P['C03'].append('node %d invoked with a failure object / Recurrent marker: %s' % (i, json.dumps(ex['kw'])[:160]))
-        if not is_subsequence(lst, rl, lambda a, b: a['kw'] == b['kw']):
-            kws = [json.dumps(x['kw']) for x in rl]
-            extra = [ex for ex in lst if json.dumps(ex['kw']) not in kws]
-            if not rl:
-                msg = 'node %d executed although the reference semantics never runs it' % i
-                for pid in ('C09', 'C10', 'C11'):
-                    P[pid].append(msg)
-            elif extra:
-                P['C03'].append('node %d invoked with arguments the reference never passes: %s (reference: %s)'
-                                % (i, json.dumps(extra[0]['kw'])[:200], kws[0][:200]))
-                P['C11'].append('node %d executed with unexpected arguments' % i)
-            else:
-                P['C04'].append('node %d executed more often than once per iteration: %d executions, reference %d'
-                                % (i, len(lst), len(rl)))
+        for kw in kws:
+            if any(contains_bad(v) for _, v in kw):
+                P['C03'].append('node %d invoked with a failure object / Recurrent marker: %s' % (i, json.dumps(kw)[:160]))
+        if not rl:
+            msg = 'node %d executed although the reference semantics never runs it' % i
+            for pid in ('C09', 'C10', 'C11'):
+                P[pid].append(msg)
+            continue
+        j = 0
+        for kw in kws:
+            jj = j
+            while jj < len(rl) and not (rl[jj]['kw'] == kw and matched.get((i, jj), 0) < rl[jj]['attempts']):
+                jj += 1
+            if jj < len(rl):
+                matched[(i, jj)] = matched.get((i, jj), 0) + 1
+                j = jj
+                continue
+            if any(x['kw'] == kw for x in rl):
+                P['C04'].append('node %d invoked more often than the reference allows with %s' % (i, json.dumps(kw)[:120]))
+                P['C12'].append('node %d invoked more often than its policy allows' % i)
                 P['C11'].append('node %d re-executed more often than the reference' % i)
-        else:
-            # attempts per execution
-            j = 0
-            for ex in lst:
-                while rl[j]['kw'] != ex['kw']:
-                    j += 1
-                if ex['attempts'] > rl[j]['attempts']:
-                    P['C04'].append('node %d: %d body invocations in one execution, reference %d' % (i, ex['attempts'], rl[j]['attempts']))
-                    P['C12'].append('node %d invoked %d times, policy allows %d' % (i, ex['attempts'], rl[j]['attempts']))
-                j += 1
+            else:
+                P['C03'].append('node %d invoked with arguments the reference never passes: %s (reference e.g.: %s)'
+                                % (i, json.dumps(kw)[:200], json.dumps(rl[0]['kw'])[:200]))
+                P['C11'].append('node %d executed with unexpected arguments' % i)
     if finished and not cancel and out[0] == 'value' and rres[0] == 'ok':
-        # completeness on successful runs: every node whose value is inside the result was executed as the reference says
-        for x in ref['log']:
-            if x['attempts'] > 0 and x['result'][0] == 'ok' and occurs(x['result'][1], rres[1]):
-                got = [ex for ex in per.get(x['node'], []) if ex['kw'] == x['kw']]
-                if not got:
-                    P['C03'].append('node %d never invoked with the reference arguments %s' % (x['node'], json.dumps(x['kw'])[:160]))
-                elif got[0]['attempts'] != x['attempts']:
-                    P['C12'].append('node %d invoked %d times, reference %d' % (x['node'], got[0]['attempts'], x['attempts']))
+        # completeness on successful runs: every execution whose value is inside the result happened, attempt for attempt
+        for i, rl in ref_per.items():
+            for jj, x in enumerate(rl):
+                if x['result'][0] == 'ok' and occurs(x['result'][1], rres[1]):
+                    got = matched.get((i, jj), 0)
+                    if got == 0:
+                        P['C03'].append('node %d never invoked with the reference arguments %s' % (i, json.dumps(x['kw'])[:160]))
+                    elif got != x['attempts']:
+                        P['C12'].append('node %d invoked %d times, reference %d' % (i, got, x['attempts']))
+    # ---- C12 intrinsic (independent of the reference): a retry gets the arguments of the first attempt
+    issub = {('EB', 'EA'), ('EA', 'Exception'), ('EB', 'Exception'), ('EC', 'Exception')}
+
+    def matches(cls, excs):
+        excs = excs or ['Exception']
+        return any(cls == x or (cls, x) in issub or x == 'BaseException' for x in excs)
+    state = {}
+    last_start = {}
+    for e in trace:
+        if e[0] == 'start':
+            i = e[1]
+            stt = state.get(i)
+            if stt and stt['retry_next']:
+                if e[3] != stt['kw']:
+                    P['C12'].append('node %d: attempt %d invoked with other arguments than attempt 1: %s vs %s'
+                                    % (i, stt['att'] + 1, json.dumps(e[3])[:120], json.dumps(stt['kw'])[:120]))
+                state[i] = dict(kw=stt['kw'], att=stt['att'] + 1, retry_next=False)
+            else:
+                state[i] = dict(kw=e[3], att=1, retry_next=False)
+        elif e[0] == 'raise':
+            i = e[1]
+            nd = spec['nodes'][i]
+            stt = state.get(i)
+            if stt is not None:
+                a = nd['attempts'] or 1
+                stt['retry_next'] = matches(e[2], nd['exceptions']) and stt['att'] < a
+        elif e[0] == 'default':
+            stt = state.get(e[1])
+            if stt is not None and not (isinstance(spec['nodes'][e[1]]['beh'], list) and spec['nodes'][e[1]]['beh'][0] == 'recur'):
+                if e[2] != stt['kw']:
+                    P['C12'].append('node %d: get_default called with other arguments than the body: %s vs %s'
+                                    % (e[1], json.dumps(e[2])[:120], json.dumps(stt['kw'])[:120]))
     # defaults
     idef = [(e[1], e[2]) for e in trace if e[0] == 'default']
     rdef = [(x['node'], x['kw']) for x in ref['log'] if x['default']]
